@@ -6,6 +6,7 @@ import (
 	"net"
 	"net/netip"
 	"path/filepath"
+	"sync"
 	"time"
 
 	"github.com/AdguardTeam/AdGuardHome/internal/dhcpsvc"
@@ -97,6 +98,12 @@ type server struct {
 
 	// Called when the leases DB is modified
 	onLeaseChanged []OnLeaseChangedT
+
+	// dbStoreMu serializes the stores of the lease database.  The leases are
+	// stored after the lease locks are released, so without it a store that
+	// has taken its copy of the leases earlier could overwrite the file of a
+	// store that has taken it later.
+	dbStoreMu sync.Mutex
 }
 
 // type check
